@@ -12,10 +12,16 @@ package sqlcrud
 
 // the generated Go function takes one parameter and passes one argument per input of the query, in the same
 // order: parameter = (name of the input, printed type of the input), argument = name of the input
+// the parameter list / argument list built for the first k inputs, in input order
+//@ recfunc paramsOf(ctx context, I seq[sql.CustomQueryInput], k int) string = ite(k <= 0, "", paramsOf(ctx, I, k-1) ++ fmt.Sprintf("%s %s,", I[k-1].VarName, ctx.typeName(I[k-1].Type)))
+//@ recfunc argsOf(I seq[sql.CustomQueryInput], k int) string = ite(k <= 0, "", argsOf(I, k-1) ++ fmt.Sprintf("%s, ", I[k-1].VarName))
+
 //@ func context.generateCustomQueries
 //@   props C16
 //@   nosafety
 //@   modifies *
+//@   loop query.Inputs.1 index m
+//@   loop query.Inputs.1 invariant signature == paramsOf(ctx, contents(query.Inputs), m) && argsSelect == argsOf(contents(query.Inputs), m)
 //@   callarg fmt.Sprintf@1 1 match.VarName
 //@   callarg fmt.Sprintf@1 2 ctx.typeName(match.Type)
 //@   callarg fmt.Sprintf@2 1 match.VarName
